@@ -835,7 +835,7 @@ impl Check for C15 {
         "fault_enumeration"
     }
     fn rule(&self) -> String {
-        "for each base configuration (n in {2,3}, every leader, with / without constants and destinations) the undisturbed run is recorded; then cancel() is invoked on party p after the k-th event, for every k of the run (all states Init .. Executing, including 'cancel queued behind the internal run command' reached by cancelling while the compile job is parked, and, with individually explored MPC messages, every point of the MPC phase) and every p, replaying the base decisions around it; every point once after the system quiesced and once in the same step as the preceding event (burst: both commands queued back to back, which is the only way to meet state Running); a third of the runs additionally fail one run / consts RPC so that cancel has to stay synchronised with tasks that can still notify the destination, another third deliver one run request twice (a retrying client; the copy is refused) before the cancel, a sixth fail a validate request of the leader (its schedule handler then ends the machine without a notification; a cancel queued behind it must not report success). Oracle at the cancel-return event and at final quiescence: if cancel returned Ok the party's machine has stopped, a party with a destination was sent exactly one notification (Cancelled, or the real result if already sent) and none after the cancel returned, and its permits are all available; no task panics; a cancel call that never returns is a violation. distinct = (configuration, party, k)".into()
+        "for each base configuration (n in {2,3}, every leader, with / without constants and destinations) the undisturbed run is recorded; then cancel() is invoked on party p after the k-th event, for every k of the run (all states Init .. Executing, including 'cancel queued behind the internal run command' reached by cancelling while the compile job is parked, and, with individually explored MPC messages, every point of the MPC phase) and every p, replaying the base decisions around it; every point once after the system quiesced and once in the same step as the preceding event (burst: both commands queued back to back, which is the only way to meet state Running); a third of the runs additionally fail one run / consts RPC so that cancel has to stay synchronised with tasks that can still notify the destination, another third deliver one run request twice (a retrying client; the copy is refused) before the cancel, a sixth fail a validate request of the leader (its schedule handler then ends the machine without a notification; a cancel queued behind it must not report success). In HTTP mode also a shutdown under lock contention (a parked message handler holds the computation table's read lock, a schedule request for a second computation waits for the write lock, then the node is shut down). Oracle at the cancel-return event and at final quiescence: if cancel returned Ok the party's machine has stopped, a party with a destination was sent exactly one notification (Cancelled, or the real result if already sent) and none after the cancel returned, and its permits are all available; no task panics; a cancel call that never returns is a violation. distinct = (configuration, party, k)".into()
     }
     fn assumptions(&self) -> Vec<String> {
         vec!["single-threaded runtime only (DESIGN.md section 3); output deliveries are atomic".into(), "what the other parties do after a peer cancelled is not judged".into()]
@@ -902,6 +902,35 @@ impl Check for C15 {
             out.sim_steps += run.events;
             out.count("cancel_from_inside_the_output_delivery", 1);
             out.distinct.push(entropy::mix(base.seed, p as u64, 0xffff));
+            out.violations.extend(c15_oracle(&s, &run));
+        }
+        // HTTP mode: graceful shutdown under lock contention. While the leader's machine is busy in
+        // its validate round, a message for it parks in the handler (which holds the table's read
+        // lock), then a schedule request for a second computation waits for the write lock, then the
+        // node is shut down: the shutdown has to wait its turn and then cancel both computations.
+        // (One entry in the table at that moment, so the iteration order of the table does not matter.)
+        if base.http && shard == 0 {
+            let leader = base.policies[0].leader;
+            let follower = (0..n).find(|q| *q != leader).unwrap();
+            let mut s = base.clone();
+            let mut second = s.policies[0].clone();
+            second.comp = 2;
+            s.policies.push(second);
+            s.no_schedule = vec![(leader, 2)];
+            s.concurrency = vec![2; n];
+            s.explicit = vec![format!("schedule p{leader} c1")];
+            s.injections = vec![
+                Injection { after_events: 1, action: Action::StrayMsg { party: leader, comp: 1, from: follower }, burst: false, burst_before: false },
+                Injection { after_events: 1, action: Action::DupSchedule { party: leader, comp: 2, template: None }, burst: false, burst_before: false },
+                Injection { after_events: 1, action: Action::Cancel { party: leader, comp: 1 }, burst: false, burst_before: false },
+            ];
+            cx.begin(&serde_json::to_value(&s).unwrap());
+            let run = server::run(&s);
+            out.evals += 1;
+            out.sim_steps += run.events;
+            out.count("runs_through_real_http_server_nodes", 1);
+            out.count("shutdown_while_a_table_writer_waits", 1);
+            out.distinct.push(entropy::mix(base.seed, leader as u64, 0xc0de));
             out.violations.extend(c15_oracle(&s, &run));
         }
         for p in 0..n {
